@@ -24,20 +24,6 @@ Proof.
   unfold perm_beq. rewrite Nat.eqb_refl. cbn. apply forallb_forall. intros x _. apply Nat.eqb_refl.
 Qed.
 
-Lemma map_flat_map {A B C} (f : A -> list B) (g : B -> C) l :
-  map g (flat_map f l) = flat_map (fun x => map g (f x)) l.
-Proof. induction l; cbn; [reflexivity|]. now rewrite map_app, IHl. Qed.
-
-Lemma flat_map_ext_in {A B} (f g : A -> list B) l : (forall x, In x l -> f x = g x) -> flat_map f l = flat_map g l.
-Proof. induction l; cbn; intros H; [reflexivity|]. rewrite H by now left. f_equal. apply IHl. intros; apply H; now right. Qed.
-
-Lemma flat_map_incl {A B} (f : A -> list B) l l' : incl l l' -> incl (flat_map f l) (flat_map f l').
-Proof. intros H x Hx. apply in_flat_map in Hx as (y & Hy & Hx). apply in_flat_map. exists y. auto. Qed.
-
-Lemma flat_map_combine_seq {A B} (f : A -> list B) (l : list A) : forall i,
-  flat_map (fun ip : nat * A => f (snd ip)) (combine (seq i (length l)) l) = flat_map f l.
-Proof. induction l; intros i; cbn; [reflexivity|]. now rewrite IHl. Qed.
-
 (* ---------------------------------------------------------------- the oracle made from a fault list *)
 Lemma rid_beq_true a b : rid_beq a b = true -> a = b.
 Proof. destruct a, b; cbn; try discriminate; auto; intros H; apply Nat.eqb_eq in H; now subst. Qed.
@@ -318,6 +304,49 @@ Proof.
   - intros ->. reflexivity.
 Qed.
 
+(* ---------------------------------------------------------------- rows of DescribeUsers *)
+Lemma has_spec l q k : has l q k = true <-> exists t, In (q, k, t) l.
+Proof.
+  unfold has. rewrite existsb_exists. split.
+  - intros ([[p k'] t] & Hin & H). cbn in H. apply andb_true_iff in H as [H1 H2].
+    apply N.eqb_eq in H1, H2. subst. eauto.
+  - intros (t & Hin). exists (q, k, t). split; [assumption|]. cbn. now rewrite !N.eqb_refl.
+Qed.
+Lemma has_incl a b q k : incl a b -> has a q k = true -> has b q k = true.
+Proof. intros H Ha. apply has_spec in Ha as (t & Ht). apply has_spec. exists t. auto. Qed.
+Lemma tails_spec l q k t : In t (tails l q k) <-> In (q, k, t) l.
+Proof.
+  unfold tails. rewrite in_map_iff. split.
+  - intros ([[p k'] t'] & E & Hin). cbn in E. subst t'. apply filter_In in Hin as [Hin H]. cbn in H.
+    apply andb_true_iff in H as [H1 H2]. apply N.eqb_eq in H1, H2. now subst.
+  - intros Hin. exists (q, k, t). split; [reflexivity|]. apply filter_In. split; [assumption|]. cbn. now rewrite !N.eqb_refl.
+Qed.
+Lemma bsubset_spec a b : bsubset a b = true <-> incl a b.
+Proof.
+  unfold bsubset, incl. rewrite forallb_forall. split; intros H x Hx.
+  - apply H in Hx. apply existsb_exists in Hx as (y & Hy & E). apply beq_true in E. now subst.
+  - apply existsb_exists. exists x. split; [now apply H|apply beq_refl].
+Qed.
+Lemma nodupN_spec l : NoDup l -> nodupN l = true.
+Proof.
+  induction 1 as [|x l Hn _ IH]; cbn; [reflexivity|]. rewrite IH, andb_true_r. apply negb_true_iff.
+  destruct (existsb (N.eqb x) l) eqn:E; [|reflexivity]. apply existsb_exists in E as (y & Hy & E).
+  apply N.eqb_eq in E. subst. contradiction.
+Qed.
+
+Lemma grp_in us q u : In u (grp (usort us) q) <-> In u us /\ u_pid u = q.
+Proof. unfold grp. rewrite filter_In, usort_in, N.eqb_eq. tauto. Qed.
+
+Lemma grp_kind us q k :
+  existsb (fun u => (u_kind u =? k)%N) (grp (usort us) q) = has (map proj us) q k.
+Proof.
+  apply Bool.eq_iff_eq_true. rewrite has_spec, existsb_exists. split.
+  - intros (u & Hu & Hk). apply grp_in in Hu as [Hu Hp]. apply N.eqb_eq in Hk. exists (u_file u).
+    apply in_map_iff. exists u. split; [|assumption]. unfold proj. now rewrite Hp, Hk.
+  - intros (t & Hin). apply in_map_iff in Hin as (u & E & Hu). unfold proj in E. injection E as Hp Hk Ht.
+    exists u. split; [apply grp_in; auto|]. now apply N.eqb_eq.
+Qed.
+
 (* ---------------------------------------------------------------- the per-case statement *)
 Section Holds.
 Variable c : case.
@@ -480,6 +509,64 @@ Proof.
   destruct (fl_mb f), (fl_nmb f), (fl_chroot f);
   repeat match goal with b : bool |- _ => destruct b end; cbn; intros H; try discriminate; reflexivity.
 Qed.
+(* rows *)
+Lemma rows_ok L : no_slash L = true -> spec_rows c L (describe (get m L)) = true.
+Proof.
+  intros HL. pose proof (lo_sub_got L HL) as Hlo. pose proof (got_sub_hi L HL) as Hhi.
+  set (us := get m L) in *. set (got := map proj us) in *.
+  unfold spec_rows. apply andb_true_iff. split; [apply andb_true_iff; split|].
+  - apply forallb_forall. intros r Hr. destruct (describe_rows us r Hr) as (H1 & Hg & Hmode & Hcwd & Hfiles).
+    set (q := r_pid r) in *. set (g := grp (usort us) q) in *.
+    pose proof (grp_kind us q K_root) as Eroot. pose proof (grp_kind us q K_cwd) as Ecwd. fold g got in Eroot, Ecwd.
+    rewrite Eroot, Ecwd in Hmode.
+    assert (Mroot : has (lo c L) q K_root = true -> has got q K_root = true) by (apply has_incl; exact Hlo).
+    assert (Mcwd : has (lo c L) q K_cwd = true -> has got q K_cwd = true) by (apply has_incl; exact Hlo).
+    assert (Nroot : has got q K_root = true -> has (hi c L) q K_root = true) by (apply has_incl; exact Hhi).
+    assert (Ncwd : has got q K_cwd = true -> has (hi c L) q K_cwd = true) by (apply has_incl; exact Hhi).
+    assert (Hcwdin : has got q K_cwd = true -> existsb (beq (r_cwd r)) (tails (hi c L) q K_cwd) = true).
+    { intros H. rewrite <- Ecwd in H. destruct (g_cwd_has g [] H) as (u & Hu & Hk & E).
+      apply existsb_exists. exists (u_file u). split; [|rewrite Hcwd, E; apply beq_refl].
+      apply tails_spec. apply Hhi. apply grp_in in Hu as [Hu Hp]. apply in_map_iff. exists u.
+      split; [|assumption]. unfold proj. now rewrite Hp, Hk. }
+    unfold spec_row. fold q.
+    repeat (apply andb_true_iff; split).
+    2-7: (rewrite Hmode; clear Hmode Hcwdin Eroot Ecwd;
+          destruct (has (lo c L) q K_root), (has (lo c L) q K_cwd), (has got q K_root), (has got q K_cwd),
+                   (has (hi c L) q K_root), (has (hi c L) q K_cwd); cbn; try reflexivity;
+          try discriminate (Mroot eq_refl); try discriminate (Mcwd eq_refl);
+          try discriminate (Nroot eq_refl); try discriminate (Ncwd eq_refl)).
+    + destruct g as [|u g'] eqn:Eg; [congruence|]. assert (Hu : In u g) by (rewrite Eg; now left).
+      apply grp_in in Hu as [Hu Hp]. apply existsb_exists. exists (proj u). split.
+      * apply Hhi. now apply in_map.
+      * unfold t_pid, proj. cbn. now apply N.eqb_eq.
+    + apply Bool.implb_true_iff. intros H. apply orb_true_iff in H as [H|H]; [apply orb_true_iff in H as [H|H]|].
+      * apply N.eqb_eq in H. rewrite H in Hmode. apply Hcwdin.
+        destruct (has got q K_root); [discriminate|]. destruct (has got q K_cwd); [reflexivity|discriminate].
+      * apply Hcwdin. now apply Mcwd.
+      * destruct (g_cwd_in g []) as [E|(u & Hu & Hk & E)].
+        -- rewrite Hcwd, E in H. discriminate.
+        -- apply Hcwdin. rewrite <- Ecwd. apply existsb_exists. exists u. split; [assumption|]. now apply N.eqb_eq.
+    + apply bsubset_spec. intros t Ht. apply tails_spec in Ht. apply Hlo in Ht.
+      apply in_map_iff in Ht as (u & E & Hu). unfold proj in E. injection E as Hp Hk Hf.
+      rewrite Hfiles. apply Lex.sort_in. unfold g_files. apply in_map_iff. exists u. split; [assumption|].
+      apply filter_In. split; [apply grp_in; auto|]. now apply N.eqb_eq.
+    + apply bsubset_spec. intros t Ht. rewrite Hfiles in Ht. apply -> Lex.sort_in in Ht. unfold g_files in Ht.
+      apply in_map_iff in Ht as (u & Hf & Hu). apply filter_In in Hu as [Hu Hk]. apply N.eqb_eq in Hk.
+      apply grp_in in Hu as [Hu Hp]. apply tails_spec. apply Hhi. apply in_map_iff. exists u.
+      split; [|assumption]. unfold proj. now rewrite Hp, Hk, Hf.
+  - apply forallb_forall. intros x Hx. apply Hlo in Hx. apply in_map_iff in Hx as (u & E & Hu).
+    destruct (t_pid x <? 1)%N eqn:E1; [reflexivity|]. apply N.ltb_ge in E1. cbn [orb].
+    assert (Hp : t_pid x = u_pid u) by (rewrite <- E; reflexivity). rewrite Hp in *.
+    destruct (describe_complete us u Hu E1) as (r & Hr & Hq). apply existsb_exists. exists r. split; [assumption|]. now apply N.eqb_eq.
+  - apply nodupN_spec. apply describe_nodup.
+Qed.
+
+Lemma rows_all Ls : (forall L, In L Ls -> no_slash L = true) ->
+  spec_rows_all c Ls (map (fun L => describe (get m L)) Ls) = true.
+Proof.
+  induction Ls as [|L Ls IH]; intros H; [reflexivity|]. cbn [map spec_rows_all].
+  rewrite rows_ok by (apply H; now left). apply IH. intros; apply H; now right.
+Qed.
 End Ok.
 
 Theorem holds : kf c = 0%N -> spec c (model c) = true.
@@ -494,9 +581,10 @@ Proof.
     + set (L := nth i (c_layers c) []).
       assert (HL : no_slash L = true).
       { apply layer_no_slash. apply nth_In. now apply Nat.ltb_lt. }
-      rewrite (classify_flags m L). apply (usage_ok L). now apply flags_ok.
+      rewrite (classify_flags m L). rewrite (usage_ok L) by now apply flags_ok.
+      now apply rows_ok.
     + destruct (flags_all m Hm (c_layers c) layer_no_slash) as (fl & H1 & H2). rewrite H1.
-      rewrite (attr_all m Hm). exact H2.
+      rewrite (attr_all m Hm), H2. cbn [andb]. apply (rows_all m Hm). exact layer_no_slash.
 Qed.
 End Holds.
 
